@@ -317,11 +317,16 @@ func registerOSIntrinsics(e *Engine) {
 		r := fr.run()
 		fs := r.fsInit()
 		p := cleanPath(args[0])
+		var gone []string
 		for f := range fs.files {
 			if f == p || strings.HasPrefix(f, p+"/") {
-				delete(fs.files, f)
-				fs.logOp(fsOp{kind: "remove", path: f})
+				gone = append(gone, f)
 			}
+		}
+		sort.Strings(gone)
+		for _, f := range gone {
+			delete(fs.files, f)
+			fs.logOp(fsOp{kind: "remove", path: f})
 		}
 		for d := range fs.dirs {
 			if d == p || strings.HasPrefix(d, p+"/") {
@@ -700,7 +705,10 @@ func registerFSAPI(e *Engine, m func(string, intrinsicFn)) {
 	})
 	m("RemoveFile", func(fr *frame, args []value) value {
 		fs := hRun(args).fsInit()
-		delete(fs.files, cleanPath(args[1]))
+		if _, ok := fs.files[cleanPath(args[1])]; ok {
+			delete(fs.files, cleanPath(args[1]))
+			fs.logOp(fsOp{kind: "remove", path: cleanPath(args[1])})
+		}
 		return nil
 	})
 	m("ListFiles", func(fr *frame, args []value) value {
@@ -761,7 +769,7 @@ func (fs *fsModel) crash(r *Run, p string) bool {
 	if lastSync >= n {
 		// everything is durable: crash after the last op
 		fs.crashNote = append(fs.crashNote, fmt.Sprintf("crash after all %d ops (all synced)", n))
-		fs.crashPlan = map[string]any{"base": fs.step - 1, "next": fs.step - 1, "ranges": [][]int{}}
+		fs.crashPlan = map[string]any{"k": n, "torn": 0, "lost": false}
 		fs.rebuild(n, 0)
 		return false
 	}
@@ -807,26 +815,8 @@ func (fs *fsModel) crash(r *Run, p string) bool {
 		torn = cands[r.choose(len(cands), "torn")]
 	}
 	fs.crashNote = append(fs.crashNote, fmt.Sprintf("crash after op %d of %d (last sync at %d), torn bytes of next write: %d", k, n, lastSync, torn))
-	// plan for the native reconstruction from harness snapshots (verifrt.nativeCrash)
-	plan := map[string]any{"base": fs.step, "next": fs.step, "ranges": [][]int{}}
-	if k < n {
-		s := fs.log[k].step
-		var ranges [][]int
-		for i, op := range fs.log {
-			if op.step != s || op.kind != "write" || op.path != p {
-				continue
-			}
-			if i < k {
-				ranges = append(ranges, []int{op.off, len(op.data)})
-			} else if i == k && torn > 0 {
-				ranges = append(ranges, []int{op.off, torn})
-			}
-		}
-		if ranges == nil {
-			ranges = [][]int{}
-		}
-		plan = map[string]any{"base": s - 1, "next": s, "ranges": ranges}
-	}
+	// plan for the native reconstruction from the real operation log (verifrt/vos)
+	plan := map[string]any{"k": k, "torn": torn, "lost": true}
 	fs.crashPlan = plan
 	r.inputs = append(r.inputs, inputRec{Fn: "CrashK", Name: "crash.k", IsConc: true, Conc: uint64(k)}, inputRec{Fn: "CrashTorn", Name: "crash.torn", IsConc: true, Conc: uint64(torn)})
 	fs.rebuild(k, torn)
@@ -863,6 +853,9 @@ func (fs *fsModel) rebuild(k, torn int) {
 			if ino := files[op.path]; ino != nil {
 				if op.size < len(ino.data) {
 					ino.data = ino.data[:op.size:op.size]
+				}
+				for len(ino.data) < op.size {
+					ino.data = append(ino.data, BV(8, 0))
 				}
 			}
 		case "rename":
